@@ -1081,6 +1081,19 @@ pub fn run(env: &Env) -> i32 {
     };
     rep.probe("C08-unused-fragment-generate-panic", || project_probe("type Query { a: Int }\n", "fragment F on Query { nope }\n"));
     rep.probe("C08-cross-kind-duplicate-type", || project_probe("input Int { name: String }\ntype Query { a(x: Int): String }\n", "query { a }\n"));
+    rep.probe("C08-import-comment-exponential", || {
+        // 40 import-like comment lines: 2^40 steps before the repair, microseconds after it
+        let text = format!("{}query Q {{ a }}\n", "# import a\n".repeat(40));
+        let (tx, rx) = std::sync::mpsc::channel();
+        let t2 = text.clone();
+        std::thread::spawn(move || {
+            let _ = tx.send(parsers_only_text(&t2).map(|_| ()));
+        });
+        match rx.recv_timeout(Duration::from_secs(CASE_LIMIT_S)) {
+            Ok(r) => r,
+            Err(_) => Err(Failure::new("timeout", format!("parsing 40 import-like comment lines did not finish within {CASE_LIMIT_S}s"), json!({"text": text}))),
+        }
+    });
     rep.probe("C08-merge-conflict-panic", || project_probe("type Query { a: Int b: Query }\n", "query { x: a x: b { a } }\n"));
     rep.campaign("valid", env.cases(3_000, 150_000), (60, 2500), move |case| pipeline_case(case, "valid", 0, c));
     rep.campaign("op-token-mutation", env.cases(8_000, 400_000), (60, 2500), move |case| pipeline_case(case, "op-token-mutation", 1, c));
